@@ -78,3 +78,65 @@ class MemoryIndex_get_values_c:
         return (_seq == keys and etag in self._in_index
                 and forall("str", lambda k: (k in indexes) == any(k == x for x in _seq[:_i]))
                 and forall("str", lambda k: implies(k in indexes, indexes[k] == recorded(self, k, etag))))
+
+
+@contract("xandikos.store.index.MemoryIndex.available_keys", params={"self": "obj:xandikos.store.index.MemoryIndex"},
+          returns="set[str]")
+class MemoryIndex_available_keys_c:
+    def ensures(self, result):
+        return forall("str", lambda k: (k in result) == (k in self._indexes))
+
+
+fields("xandikos.store.index.AutoIndexManager", {"index": "obj:xandikos.store.index.MemoryIndex", "desired": "dict[str,int]",
+                                                  "indexing_threshold": "int"})
+
+
+def index_untouched(self):
+    return self.index._indexes == old(self.index._indexes) and self.index._in_index == old(self.index._in_index)
+
+
+def index_reset_to_superset(self):
+    return (len(self.index._in_index) == 0
+            and forall("str", lambda k: implies(k in old(self.index._indexes), k in self.index._indexes))
+            and forall("str", lambda k: implies(k in self.index._indexes, len(self.index._indexes[k]) == 0)))
+
+
+@contract("xandikos.store.index.AutoIndexManager.find_present_keys",
+          params={"self": "obj:xandikos.store.index.AutoIndexManager", "necessary_keys": "list[list[str]]"},
+          returns="opt[list[str]]",
+          modifies=["self.desired", "self.index._indexes", "self.index._in_index"],
+          locals={"needed_keys": "list[str]", "missing_keys": "list[str]", "new_index_keys": "set[str]", "found": "bool"},
+          loop_modifies={0: ["needed_keys", "missing_keys", "new_index_keys", "found", "self.desired"],
+                         1: ["needed_keys", "found"], 2: ["new_index_keys", "self.desired"]})
+class AutoIndexManager_find_present_keys_c:
+    """C10: the index path is chosen (a key list is returned) only when every alternative group
+    of the filter has a key in the index, every returned key is in the index, and then the index
+    is left exactly as it was.  Otherwise (None) the index is either untouched or was reset to
+    a superset of its keys with nothing covered - never a state in which covered files lack the
+    values of an indexed key."""
+
+    def requires(self, necessary_keys):
+        # `desired` is a defaultdict(int): total for reading; every alternative group a filter
+        # asks for names at least one key (Filter.index_keys)
+        return forall("str", lambda k: k in self.desired) and all(len(g) > 0 for g in necessary_keys)
+
+    def ensures(self, necessary_keys, result):
+        return (implies(result is not None,
+                        index_untouched(self)
+                        and all(k in self.index._indexes for k in result)
+                        and all(any(k in self.index._indexes for k in g) for g in necessary_keys))
+                and implies(result is None, index_untouched(self) or index_reset_to_superset(self)))
+
+    def inv_0(self, necessary_keys, needed_keys, missing_keys, _i, _seq):
+        return (_seq == necessary_keys and index_untouched(self) and forall("str", lambda k: k in self.desired)
+                and all(k in self.index._indexes for k in needed_keys)
+                and implies(len(missing_keys) == 0, all(any(k in self.index._indexes for k in g) for g in _seq[:_i])))
+
+    def inv_1(self, necessary_keys, needed_keys, missing_keys, found, keys, _i, _seq):
+        return (_seq == keys and index_untouched(self) and forall("str", lambda k: k in self.desired)
+                and all(k in self.index._indexes for k in needed_keys)
+                and found == any(k in self.index._indexes for k in _seq[:_i]))
+
+    def inv_2(self, necessary_keys, needed_keys, missing_keys, keys, _i, _seq):
+        return (_seq == keys and index_untouched(self) and forall("str", lambda k: k in self.desired)
+                and all(k in self.index._indexes for k in needed_keys))
